@@ -98,7 +98,12 @@ impl Watch {
                     break;
                 }
                 if !evs.is_empty() {
-                    self.flag(&["C09"], "events-before-frame-complete", format!("{what}: {}", evs_short(&evs)));
+                    // a verdict on a kind this role may never receive, given before the frame is
+                    // complete, leaves the rest of its body to be taken for new packets (C17)
+                    let kind = self.rx.first().map_or(0, |b| b >> 4);
+                    let v_eff = if self.m.ver == 0 { 4 } else { self.m.ver };
+                    let props: &[&'static str] = if !crate::model::role_may_recv(self.role, v_eff, kind) { &["C09", "C17"] } else { &["C09"] };
+                    self.flag(props, "events-before-frame-complete", format!("{what}: {}", evs_short(&evs)));
                     break;
                 }
                 out.push(evs);
